@@ -55,6 +55,9 @@ type Interp struct {
 	// PureInvoke: method calls on unknown interface values are modelled as
 	// pure functions of receiver and arguments (getter assumption).
 	PureInvoke bool
+	// WrapEq: equalities of integers wider than 4 bits become one named atom
+	// (with its definition kept), so residual formulas stay small.
+	WrapEq bool
 	// hooks for rule-specific modelling
 	MapLookup  func(f *frame, x *ssa.Lookup, st *State) Val
 	Intrinsic  func(fn *ssa.Function, args []Val, st *State) (Val, bool)
